@@ -62,8 +62,15 @@ def _site(site, nm, nm2, late):
     env.reset_all()
     m = h.Module(name="Top")
     C = _cell()
-    sig = h.Signal(name=nm)
+    sig = h.Port(name=nm) if site in (9, 10) else h.Signal(name=nm)  # 9 / 10: the designer's object is a PORT
     extra = h.Signal(name=nm2) if site == 7 else None
+    if site == 9:
+        site_eff = 2
+    elif site == 10:
+        site_eff = 1
+    else:
+        site_eff = site
+    site, site_orig = site_eff, site
     if not late:
         m.add(sig)
         if extra is not None:
@@ -129,7 +136,8 @@ def _site(site, nm, nm2, late):
 
 
 def _inst_site(site, nm, late):
-    """array elements <arr>_<k> and pair members <pair>_<member> against a designer INSTANCE named nm"""
+    """array elements <arr>_<k>, pair members <pair>_<member> and (site 11) the implicit signals behind a port
+    reference / an unnamed no-connect, against a designer INSTANCE named nm"""
     if nm in OWN:
         return True
     env.reset_all()
@@ -143,6 +151,9 @@ def _inst_site(site, nm, late):
     if site == 5:
         m.r = h.InstanceArray(of=C({}), n=2)(a=s, b=d)
         gen = ("r_0", "r_1")
+    elif site == 11:
+        m.i = C({})(b=h.NoConn())
+        m.j = C({})(a=m.i.a, b=s)
     else:
         P = h.Module(name="PCell")
         P.q, P.g = h.Port(), h.Port()
@@ -163,8 +174,10 @@ def _inst_site(site, nm, late):
         return False
     if mine.conns["a"] is not s or mine.conns["b"] is not s:
         return False
-    n_expected = 3  # designer's instance + two invented ones
+    n_expected = 3  # designer's instance + two invented (or, site 11, two further designer) ones
     if len(m.instances) != n_expected:
+        return False
+    if site == 11 and (m.instances["i"].conns["a"] is not m.instances["j"].conns["a"] or m.instances["i"].conns["b"] is m.instances["i"].conns["a"]):
         return False
     for k, v in m.instances.items():
         if v.name != k:
@@ -179,7 +192,8 @@ def _inst_site(site, nm, late):
 _T = lambda n: {"quick": {"timeout": 150, "pre": [f"len(nm) <= {n}"]}, "thorough": {"timeout": 1200, "pre": [f"len(nm) <= {n + 2}"]}}
 _SITES = {0: "named no-connect 'xy'", 1: "unnamed no-connect (implicit i_b)", 2: "implicit signal behind a port reference (i_a)",
           3: "flattened bundle member (b_x)", 4: "one named no-connect shared by two ports",
-          8: "four members of one bundle with mutually colliding flattened names (b_x, b_x_, b_y_z from a scalar and from a nested member)"}
+          8: "four members of one bundle with mutually colliding flattened names (b_x, b_x_, b_y_z from a scalar and from a nested member)",
+          9: "implicit signal behind a port reference (i_a) against a designer PORT", 10: "unnamed no-connect (i_b) against a designer PORT"}
 for _k, _txt in _SITES.items():
     def _mk(k):
         def f(nm, late):
@@ -205,7 +219,7 @@ def site7_retry(nm, nm2, late):
     return _site(7, nm, nm2, late)
 
 
-for _k, _txt in {5: "array element (r_0, r_1)", 6: "pair member (q_p, q_n)"}.items():
+for _k, _txt in {5: "array element (r_0, r_1)", 6: "pair member (q_p, q_n)", 11: "implicit port-reference signal (i_a) and unnamed no-connect (i_b) against a designer INSTANCE"}.items():
     def _mk2(k):
         def f(nm, late):
             return _inst_site(k, nm, late)
@@ -213,6 +227,6 @@ for _k, _txt in {5: "array element (r_0, r_1)", 6: "pair member (q_p, q_n)"}.ite
         return f
     _f = _mk2(_k)
     globals()[_f.__name__] = harness(
-        "C05", args="nm: str, late: bool", pre=["len(nm) >= 1"], tiers=_T(3), sample=("r_0" if _k == 5 else "q_p", True),
+        "C05", args="nm: str, late: bool", pre=["len(nm) >= 1"], tiers=_T(3), sample=("r_0" if _k == 5 else ("i_a" if _k == 11 else "q_p"), True),
         bounds=f"naming site: {_txt}; designer instance name = any non-empty string of length <= 3 (quick) / <= 5 (thorough); declared before or after",
         generalises="the designer's instance name as a symbolic string; declaration order", outside="longer names")(_f)
